@@ -144,23 +144,9 @@ fn mat_perspective_y_exact() {
     assert!(q.y() == (fr * ar) * p.y());
 }
 
-// @ob props=C08 tier=thorough kind=P cfg=core-std timeout=5400
-// @fn orthographic ; Mat4x4<RealToProj>::apply
-// @clause orthographic projection, one axis: the box sides lo < hi map to -1 and +1 within 1e-3 whenever the box is not ill-conditioned (|lo|,|hi| <= 100 * (hi - lo), extents in [1e-3, 2000])
-#[cfg(not(verif_skip_mat_orthographic_axis_to_unit))]
-#[kani::proof]
-#[kani::unwind(6)]
-fn mat_orthographic_axis_to_unit() {
-    let lo = any_in(-1000.0, 1000.0);
-    let hi = any_in(-1000.0, 1000.0);
-    kani::assume(hi - lo >= 0.001 && lo.abs() <= 100.0 * (hi - lo) && hi.abs() <= 100.0 * (hi - lo));
-    let m = orthographic(pt3(lo, -2.0, 1.0), pt3(hi, 6.0, 9.0));
-    kani::cover!(lo > 5.0);
-    // x' = idx * x + (-cx * idx): evaluate the matrix row by hand on the two sides (same operations as apply)
-    let (a, b) = (m.0[0][0] * lo + m.0[0][3], m.0[0][0] * hi + m.0[0][3]);
-    assert!((a + 1.0).abs() <= 1e-3 && (b - 1.0).abs() <= 1e-3);
-    assert!(m.0[0][1] == 0.0 && m.0[0][2] == 0.0);
-}
+// Tried and dropped: orthographic() with a SYMBOLIC box on one axis (sides map to -1/+1 within 1e-3 under the property's conditioning
+// assumption): no verdict in 30 min (reciprocal, two products and a sum, all symbolic). The fixed-box obligation below pins the
+// structure; the numeric clause for arbitrary boxes stays undecided (L1).
 
 // @ob props=C08 tier=quick kind=B cfg=core-std timeout=900
 // @fn orthographic ; Mat4x4<RealToProj>::apply
